@@ -145,6 +145,20 @@ def check_c09(out, tier):
         rnd.shuffle(T2)
         items.append({"id": c["id"] + "f", "rel": "same", "how": "perm", "a": with_graph(c, grouped(True)), "b": with_graph(c, T2)})
         items.append({"id": c["id"] + "l", "rel": "same", "how": "perm", "a": with_graph(c, grouped(False)), "b": with_graph(c, grouped(True))})
+    # two classes that share a local name in different namespaces get one label (a recorded finding of C05 / C02): whatever the
+    # library prints for them, it must not depend on the order of the statements
+    for i in range(12 * k):
+        A1, A2 = M.iri(M.EX + "Agent"), M.iri(gen.OTHER + "Agent")
+        xs = [M.iri(M.EX + "g%d" % j) for j in range(4)]
+        T = [(xs[0], M.RDF_TYPE, A1), (xs[1], M.RDF_TYPE, A2), (xs[2], M.RDF_TYPE, M.iri(M.EX + "Order")), (xs[3], M.RDF_TYPE, M.iri(M.EX + "Order")),
+             (xs[2], M.EX + "buyer", xs[0]), (xs[2], M.EX + "seller", xs[1]), (xs[3], M.EX + "buyer", xs[0])]
+        if rnd.random() < .5:
+            T.append((xs[3], M.EX + "seller", xs[1]))
+        rnd.shuffle(T)
+        c = gen.case("c09n%d" % i, T, **gen.switches(rnd))
+        T2 = list(T)
+        rnd.shuffle(T2)
+        items.append({"id": c["id"], "rel": "same", "how": "perm", "a": c, "b": with_graph(c, T2)})
     # exhaustive permutations of small documents
     small = [c for c in base_cases(rnd, 12 * k, "c09x", schema_share=0)]
     for c in small:
